@@ -1048,10 +1048,11 @@ func emitName(b []byte, off int) {
 	Emit("name", []string{Hx(b), Itoa(off)}, got)
 }
 
-func emitStrip(b []byte) {
+// stripCase: the strip case for b (nil when b holds record types outside the model).
+func stripCase(b []byte) []pendingCase {
 	if !modelled(b) {
 		st["unmodelled_skipped"]++
-		return
+		return nil
 	}
 	got := Protect(func() string {
 		s, t, err := dns.VerifStripTsig(b)
@@ -1061,14 +1062,26 @@ func emitStrip(b []byte) {
 		found := t.Hdr.Rrtype == dns.TypeTSIG
 		return "ok:" + Hx(s) + ";" + showTsig(t) + ";" + Btoa(found)
 	})
-	Emit("strip", []string{Hx(b)}, got)
+	return []pendingCase{{"strip", []string{Hx(b)}, got}}
 }
+
+func emitCases(cs []pendingCase) {
+	for _, c := range cs {
+		Emit(c.fn, c.args, c.out)
+	}
+}
+
+func emitStrip(b []byte) { emitCases(stripCase(b)) }
 
 // emitVerify: digest and verdict of the real verifier on b, against the model.
 func emitVerify(b []byte, ks keyStore, rm string, timers bool, now uint64) {
+	emitCases(verifyCases(b, ks, rm, timers, now))
+}
+
+func verifyCases(b []byte, ks keyStore, rm string, timers bool, now uint64) []pendingCase {
 	if !modelled(b) {
 		st["unmodelled_skipped"]++
-		return
+		return nil
 	}
 	table := ""
 	wall := uint64(0)
@@ -1091,13 +1104,13 @@ func emitVerify(b []byte, ks keyStore, rm string, timers bool, now uint64) {
 		// the digest depends on the wall clock read inside tsigBuffer: give the model the same reading
 		st["wallclock_cases"]++
 	}
-	Emit("digest", []string{Hx(b), rm, Btoa(timers), u(wall)}, dig)
+	cs := []pendingCase{{"digest", []string{Hx(b), rm, Btoa(timers), u(wall)}, dig}}
 	got := protectVerify(ks, b, rm, timers, now)
 	if wall != 0 && got == "err:time" {
-		return // two clock readings in one case: not replayable
+		return cs // two clock readings in one case: not replayable
 	}
-	Emit("verify", []string{Hx(b), rm, Btoa(timers), u(now), u(wall), ks.desc(), table}, got)
 	st["verdict_"+strings.TrimPrefix(strings.TrimSuffix(got, ":"), "err:")]++
+	return append(cs, pendingCase{"verify", []string{Hx(b), rm, Btoa(timers), u(now), u(wall), ks.desc(), table}, got})
 }
 
 func emitBuffer(r *Rng, msgbuf []byte, t *dns.TSIG, rm string, timers bool) {
@@ -1119,10 +1132,12 @@ func emitBuffer(r *Rng, msgbuf []byte, t *dns.TSIG, rm string, timers bool) {
 	Emit("buffer", args, got)
 }
 
-func emitGenerate(m *dns.Msg, c signCfg, ks keyStore) {
+func emitGenerate(m *dns.Msg, c signCfg, ks keyStore) { emitCases(generateCase(m, c, ks)) }
+
+func generateCase(m *dns.Msg, c signCfg, ks keyStore) []pendingCase {
 	mbuf, err := m.Pack()
 	if err != nil || !modelled(mbuf) {
-		return
+		return nil
 	}
 	out, mac, stub, gerr := sign(m, c, ks)
 	// stub now carries the time/fudge defaults tsigBuffer filled in
@@ -1148,7 +1163,7 @@ func emitGenerate(m *dns.Msg, c signCfg, ks keyStore) {
 	}
 	args := append([]string{Hx(mbuf), Itoa(len(m.Extra))}, tsigFields(orig)...)
 	args = append(args, c.rm, Btoa(c.timers), u(wall), ks.desc(), table)
-	Emit("generate", args, got)
+	return []pendingCase{{"generate", args, got}}
 }
 
 // craft builds a message by hand: header counts, then raw section octets.
@@ -1414,6 +1429,8 @@ func runC11(r *Rng, tier string, n int) {
 	}
 	// (2b) sessions: the receive and send paths of Transfer, Conn, Client and Server over scripted connections
 	runSessions(r, tier)
+	// (2c) section counts at and around the octet carries of the header fields (counts.go)
+	runCounts(r, tier, single, multi)
 	// (3) model cases
 	boundaryCases(r, single)
 	boundaryCases(r, multi)
